@@ -1,5 +1,197 @@
-From Coq Require Import List ZArith.
-From TskVerif Require Import Base.Common C09.Guards.
+(* Property C09 — statements only.  PARTIAL: what is proved is the GUARD LOGIC of the
+   modelled entry points (C09/Guards.v): when the guard passes, the body — written with
+   checked array access — never indexes out of range, for every identifier in Z and every
+   array length.  Memory safety of the compiled C is not a theorem; it is monitored under
+   ASan/UBSan by harness/props/c09.py.  `_refuted` theorems are the guards that are wrong
+   in /repo (findings F3, F4, C09-N1..N6), each next to the repaired guard proved correct. *)
+From Coq Require Import List ZArith Bool.
+From TskVerif Require Import Base.Common C09.Guards C09.GuardProofs.
+Import ListNotations.
+Open Scope Z_scope.
 
-Theorem c09_placeholder : True.
-Proof. exact I. Qed.
+(* ---- Tree accessors (arrays of num_nodes + 1 elements, virtual root included) ---- *)
+Theorem guard_implies_in_bounds_tree_array : forall arr N x,
+  zlen arr = N + 1 -> Tree_array_get arr N x <> OOB.
+Proof. exact GuardProofs.guard_implies_in_bounds_tree_array. Qed.
+
+Theorem guard_implies_in_bounds_tsk_tree_array : forall arr N u,
+  zlen arr = N + 1 -> tsk_tree_array_get arr N u <> OOB.
+Proof. exact GuardProofs.guard_implies_in_bounds_tsk_tree_array. Qed.
+
+Theorem guard_implies_in_bounds_tree_num_samples : forall arr N x,
+  zlen arr = N + 1 -> Tree_get_num_samples arr N x <> OOB.
+Proof. exact GuardProofs.guard_implies_in_bounds_tree_num_samples. Qed.
+
+Theorem guard_implies_in_bounds_tree_time : forall time N x,
+  zlen time = N -> Tree_get_time time N x <> OOB.
+Proof. exact GuardProofs.guard_implies_in_bounds_tree_time. Qed.
+
+Theorem guard_implies_in_bounds_next_sample : forall ns S has x,
+  zlen ns = S -> Tree_get_next_sample ns S has x <> OOB.
+Proof. exact GuardProofs.guard_implies_in_bounds_next_sample. Qed.
+
+Theorem guard_implies_in_bounds_is_descendant : forall fuel parent N x y,
+  parents_ok parent N -> Tree_is_descendant fuel parent N x y <> OOB.
+Proof. exact GuardProofs.guard_implies_in_bounds_is_descendant. Qed.
+
+Theorem guard_implies_in_bounds_depth : forall fuel parent N x,
+  parents_ok parent N -> Tree_depth fuel parent N x <> OOB.
+Proof. exact GuardProofs.guard_implies_in_bounds_tree_depth. Qed.
+
+(* finding C09-N1: format "I" accepts a huge id as an alias of a small one; with a
+   range-checking converter only ids in [0, N] are accepted *)
+Theorem tree_array_huge_id_refuted :
+  exists N x v, N < x /\ Tree_array_get (alloc (N + 1) 7) N x = Ok v.
+Proof. exact GuardProofs.tree_array_huge_id_refuted. Qed.
+
+Theorem tree_array_checked_parse_accepts_only_range : forall arr N x v,
+  Tree_array_get_checked_parse arr N x = Ok v -> 0 <= x <= N.
+Proof. exact GuardProofs.tree_array_accepts_only_range. Qed.
+
+Theorem guard_implies_in_bounds_tree_array_checked_parse : forall arr N x,
+  zlen arr = N + 1 -> Tree_array_get_checked_parse arr N x <> OOB.
+Proof. exact GuardProofs.guard_implies_in_bounds_tree_array_checked_parse. Qed.
+
+(* ---- id-list loops: F3 ---- *)
+Theorem ibd_within_guard_refuted :
+  exists N samples, 0 <= N /\ ibd_within_init false N samples = OOB.
+Proof. exact GuardProofs.ibd_within_guard_refuted. Qed.
+
+Theorem guard_implies_in_bounds_ibd_within_repaired : forall N samples,
+  0 <= N -> ibd_within_init true N samples <> OOB.
+Proof. exact GuardProofs.guard_implies_in_bounds_ibd_within_repaired. Qed.
+
+Theorem ibd_between_guard_refuted :
+  exists N sets, 0 <= N /\ ibd_between_init false N sets = OOB.
+Proof. exact GuardProofs.ibd_between_guard_refuted. Qed.
+
+Theorem guard_implies_in_bounds_ibd_between_repaired : forall N sets,
+  0 <= N -> ibd_between_init true N sets <> OOB.
+Proof. exact GuardProofs.guard_implies_in_bounds_ibd_between_repaired. Qed.
+
+Theorem link_ancestors_samples_guard_refuted :
+  exists N samples ancestors, 0 <= N /\ link_ancestors_init false true N samples ancestors = OOB.
+Proof. exact GuardProofs.link_ancestors_samples_guard_refuted. Qed.
+
+Theorem link_ancestors_ancestors_guard_refuted :
+  exists N samples ancestors, 0 <= N /\ link_ancestors_init true false N samples ancestors = OOB.
+Proof. exact GuardProofs.link_ancestors_ancestors_guard_refuted. Qed.
+
+Theorem guard_implies_in_bounds_link_ancestors_repaired : forall N samples ancestors,
+  0 <= N -> link_ancestors_init true true N samples ancestors <> OOB.
+Proof. exact GuardProofs.guard_implies_in_bounds_link_ancestors_repaired. Qed.
+
+Theorem guard_implies_in_bounds_simplifier_init : forall N samples,
+  0 <= N -> simplifier_init_samples N samples <> OOB.
+Proof. exact GuardProofs.guard_implies_in_bounds_simplifier_init. Qed.
+
+Theorem guard_implies_in_bounds_variant_init : forall imp N flags samples,
+  0 <= N -> zlen flags = N -> variant_init_samples imp N flags samples <> OOB.
+Proof. exact GuardProofs.guard_implies_in_bounds_variant_init. Qed.
+
+Theorem guard_implies_in_bounds_tracked_samples : forall fuel N flags parent samples,
+  0 <= N -> parents_ok parent N -> zlen flags = N ->
+  Tree_init_tracked fuel N flags parent samples <> OOB.
+Proof. exact GuardProofs.guard_implies_in_bounds_tracked_samples. Qed.
+
+Theorem guard_implies_in_bounds_check_sample_sets : forall N imap sizes flat,
+  zlen imap = N -> sum_sizes sizes <= zlen flat ->
+  tsk_treeseq_check_sample_sets N imap sizes flat <> OOB.
+Proof. exact GuardProofs.guard_implies_in_bounds_check_sample_sets. Qed.
+
+(* finding C09-N2 *)
+Theorem pair_coalescence_rates_refuted :
+  exists N imap times sizes flat,
+    zlen imap = N /\ zlen times = N /\ sum_sizes sizes = zlen flat /\
+    pair_coalescence_rates_entry false N imap times 0 sizes flat = OOB.
+Proof. exact GuardProofs.pair_coalescence_rates_refuted. Qed.
+
+(* ---- table rows ---- *)
+Theorem guard_implies_in_bounds_get_row : forall col offset n i,
+  zlen col = n -> zlen offset = n + 1 -> table_get_row col offset n i <> OOB.
+Proof. exact GuardProofs.guard_implies_in_bounds_get_row. Qed.
+
+Theorem guard_implies_in_bounds_py_getitem : forall col offset n i,
+  zlen col = n -> zlen offset = n + 1 -> py_table_getitem col offset n i <> OOB.
+Proof. exact GuardProofs.guard_implies_in_bounds_py_getitem. Qed.
+
+Theorem guard_implies_in_bounds_extend : forall col offset n ids,
+  zlen col = n -> zlen offset = n + 1 -> table_extend col offset n ids <> OOB.
+Proof. exact GuardProofs.guard_implies_in_bounds_extend. Qed.
+
+Theorem guard_implies_in_bounds_keep_rows : forall keep col n,
+  zlen col = n -> table_keep_rows true keep col n <> OOB.
+Proof. exact GuardProofs.guard_implies_in_bounds_keep_rows. Qed.
+
+Theorem keep_rows_without_length_check_refuted :
+  exists keep col n, zlen col = n /\ table_keep_rows false keep col n = OOB.
+Proof. exact GuardProofs.keep_rows_without_length_check_refuted. Qed.
+
+Theorem guard_implies_in_bounds_subset : forall N col nodes,
+  0 <= N -> zlen col = N -> table_collection_subset N col nodes <> OOB.
+Proof. exact GuardProofs.guard_implies_in_bounds_subset. Qed.
+
+Theorem guard_implies_in_bounds_union : forall sn on scol mapping,
+  zlen scol = sn -> 0 <= on -> table_collection_union true sn on scol mapping <> OOB.
+Proof. exact GuardProofs.guard_implies_in_bounds_union. Qed.
+
+Theorem union_without_length_check_refuted :
+  exists sn on scol mapping, zlen scol = sn /\ 0 <= on /\ table_collection_union false sn on scol mapping = OOB.
+Proof. exact GuardProofs.union_without_length_check_refuted. Qed.
+
+(* finding C09-N6 *)
+Theorem site_set_columns_metadata_offset_refuted :
+  exists position so mo sl ml, site_table_set_columns false position so mo sl ml = OOB.
+Proof. exact GuardProofs.site_set_columns_metadata_offset_refuted. Qed.
+
+Theorem guard_implies_in_bounds_site_set_columns_repaired : forall position so mo sl ml,
+  site_table_set_columns true position so mo sl ml <> OOB.
+Proof. exact GuardProofs.guard_implies_in_bounds_site_set_columns_repaired. Qed.
+
+(* finding C09-N3 *)
+Theorem two_branch_rows_empty_refuted : two_branch_row_span false [] = OOB.
+Proof. exact GuardProofs.two_branch_rows_empty_refuted. Qed.
+
+Theorem guard_implies_in_bounds_two_branch_rows_repaired : forall rows,
+  two_branch_row_span true rows <> OOB.
+Proof. exact GuardProofs.guard_implies_in_bounds_two_branch_rows_repaired. Qed.
+
+(* ---- positions: F4 ---- *)
+Theorem seek_guard_nan_refuted : forall L, seek_guard NaN L = false.
+Proof. exact GuardProofs.seek_guard_nan_refuted_lemma. Qed.
+
+Theorem seek_guard_passes_only_nan_or_range : forall x L,
+  seek_guard x L = false -> x = NaN \/ exists z, x = Fin z /\ 0 <= z < L.
+Proof. exact GuardProofs.seek_guard_passes. Qed.
+
+Theorem tree_seek_nan_never_returns : forall bps T i fuel,
+  zlen bps = T + 1 -> 1 <= T -> 0 <= i < T -> tree_seek false fuel bps T i NaN = Fuel.
+Proof. exact GuardProofs.tree_seek_nan_hangs. Qed.
+
+Theorem seek_guard_repaired_passes_only_range : forall x L,
+  seek_guard_repaired x L = false -> exists z, x = Fin z /\ 0 <= z < L.
+Proof. exact GuardProofs.seek_guard_repaired_passes. Qed.
+
+Theorem tree_seek_repaired_rejects_nan : forall bps T i fuel,
+  zlen bps = T + 1 -> 0 <= T -> exists c, tree_seek true fuel bps T i NaN = Err c.
+Proof. exact GuardProofs.tree_seek_repaired_rejects_nan. Qed.
+
+(* finding C09-N4 *)
+Theorem windows_guard_nan_refuted :
+  exists L w, check_windows false L w = true /\ ~ strictly_increasing w.
+Proof. exact GuardProofs.windows_guard_nan_refuted_lemma. Qed.
+
+Theorem check_windows_repaired_sorted : forall L w,
+  check_windows true L w = true -> strictly_increasing w.
+Proof. exact GuardProofs.check_windows_repaired_sorted. Qed.
+
+(* ---- map_mutations ---- *)
+Theorem guard_implies_in_bounds_map_mutations : forall ns g anc,
+  0 <= ns -> map_mutations_entry true ns g anc <> OOB /\
+  (forall na, map_mutations_entry true ns g anc = Ok na ->
+     1 <= na <= HARTIGAN_MAX_ALLELES /\ forall allele, allele_count_access na allele <> OOB).
+Proof. exact GuardProofs.guard_implies_in_bounds_map_mutations. Qed.
+
+Theorem map_mutations_without_length_check_refuted :
+  exists ns g, 0 <= ns /\ map_mutations_entry false ns g None = OOB.
+Proof. exact GuardProofs.map_mutations_without_length_check_refuted. Qed.
